@@ -1973,6 +1973,112 @@ def t14(ast):
     return out
 
 
+# ------------------------------------------------------------------------------------ T15
+# the bit arithmetic of `get_cmd_state` / `set_cmd_state` (four 2-bit match states per byte) as natural
+# number bit operations: the byte index, the value read, the value stored.  `uint8_t` locals hold
+# values below 256; `~x` on an operand known to be below 256 is 255 - x in the low byte.
+
+def _bits(n, env):
+    e = strip(n)
+    while e.get("kind") in ("CStyleCastExpr",) and e.get("inner"):
+        e = strip(e["inner"][0])
+    k = e.get("kind")
+    if k == "IntegerLiteral":
+        return str(int(e["value"]))
+    if k == "DeclRefExpr":
+        nm = e["referencedDecl"]["name"]
+        if nm in env:
+            return "(" + env[nm] + ")"
+        raise Unrecognised("T15: reference to %s" % nm)
+    if k == "BinaryOperator" and e.get("opcode") in (">>", "<<", "%", "&", "|"):
+        a, b = _bits(e["inner"][0], env), _bits(e["inner"][1], env)
+        op = {">>": ">>>", "<<": "<<<", "%": "%", "&": "&&&", "|": "|||"}[e["opcode"]]
+        return "(%s %s %s)" % (a, op, b)
+    if k == "UnaryOperator" and e.get("opcode") == "~":
+        return "(255 - %s)" % _bits(e["inner"][0], env)
+    raise Unrecognised("T15: unrecognised expression (%s)" % k)
+
+
+def _buf_at(n, env):
+    """get_atcmd_buf(self)[<index expr>] -> the index as a Lean term"""
+    e = strip(n)
+    if e.get("kind") == "ArraySubscriptExpr" and _is_self_call(e["inner"][0], "get_atcmd_buf"):
+        return _bits(e["inner"][1], env)
+    return None
+
+
+def t15(ast):
+    out = []
+    # get_cmd_state: guard on is_command_disable, then  s = buf[i >> 2]; s >>= ...; s &= 3; return s
+    _, body = find_fn(ast, "get_cmd_state")
+    sts = [x for x in body.get("inner", []) if not is_noise(x) and x.get("kind") != "DeclStmt"]
+    if not (len(sts) >= 3 and sts[0].get("kind") == "IfStmt" and sts[-1].get("kind") == "ReturnStmt"):
+        raise Unrecognised("T15: get_cmd_state has an unrecognised shape")
+    c = strip(sts[0]["inner"][0])
+    call = strip(c["inner"][0]) if c.get("kind") == "BinaryOperator" and c.get("opcode") == "!=" else {}
+    ok = call.get("kind") == "CallExpr" and strip(call["inner"][0]).get("referencedDecl", {}).get("name") == "is_command_disable" \
+        and strip(call["inner"][2]).get("referencedDecl", {}).get("name") == "i"
+    r0 = [x for x in _block(sts[0]["inner"][1]) if not is_noise(x)]
+    ok = ok and len(r0) == 1 and r0[0].get("kind") == "ReturnStmt" and const_value(strip(r0[0]["inner"][0]), {}) == 0
+    if not ok:
+        raise Unrecognised("T15: get_cmd_state does not start with the disable guard returning NOT_MATCH")
+    env = {"i": "i"}
+    idx = None
+    for st in sts[1:-1]:
+        e = strip(st)
+        if e.get("kind") == "BinaryOperator" and e.get("opcode") == "=" and strip(e["inner"][0]).get("referencedDecl", {}).get("name") == "s":
+            idx = _buf_at(e["inner"][1], env)
+            if idx is None:
+                raise Unrecognised("T15: s is not loaded from the command buffer")
+            env["s"] = "b"
+        elif e.get("kind") == "CompoundAssignOperator" and strip(e["inner"][0]).get("referencedDecl", {}).get("name") == "s" and "s" in env:
+            op = {">>=": ">>>", "&=": "&&&", "|=": "|||", "<<=": "<<<"}.get(e.get("opcode"))
+            if not op:
+                raise Unrecognised("T15: compound assignment %s" % e.get("opcode"))
+            env["s"] = "(%s %s %s) %% 256" % (env["s"], op, _bits(e["inner"][1], env))
+        else:
+            raise Unrecognised("T15: unrecognised statement in get_cmd_state")
+    if strip(sts[-1]["inner"][0]).get("referencedDecl", {}).get("name") != "s" or idx is None:
+        raise Unrecognised("T15: get_cmd_state does not return s")
+    out.append("/-- `get_cmd_state` of src/cat.c for an enabled entry: the byte index … -/\ndef get_cmd_state_index (i : Nat) : Nat := %s" % idx)
+    out.append("/-- … and the value extracted from the byte `b` found there -/\ndef get_cmd_state_bits (b i : Nat) : Nat := %s" % env["s"])
+    # set_cmd_state
+    _, body = find_fn(ast, "set_cmd_state")
+    sts = [x for x in body.get("inner", []) if not is_noise(x) and x.get("kind") != "DeclStmt"]
+    env = {"i": "i", "state": "v"}
+    ld = stn = None
+    for st in sts:
+        e = strip(st)
+        if e.get("kind") == "BinaryOperator" and e.get("opcode") == "=":
+            lhs = strip(e["inner"][0])
+            nm = lhs.get("referencedDecl", {}).get("name")
+            if nm in ("n", "k"):
+                env[nm] = _bits(e["inner"][1], env) + (" % 256" if nm == "k" else "")
+            elif nm == "s":
+                ld = _buf_at(e["inner"][1], env)
+                if ld is None:
+                    raise Unrecognised("T15: s is not loaded from the command buffer")
+                env["s"] = "b"
+            elif _buf_at(lhs, env) is not None:
+                if strip(e["inner"][1]).get("referencedDecl", {}).get("name") != "s":
+                    raise Unrecognised("T15: something other than s is stored")
+                stn = _buf_at(lhs, env)
+            else:
+                raise Unrecognised("T15: unrecognised assignment in set_cmd_state")
+        elif e.get("kind") == "CompoundAssignOperator" and strip(e["inner"][0]).get("referencedDecl", {}).get("name") == "s" and "s" in env:
+            op = {">>=": ">>>", "&=": "&&&", "|=": "|||", "<<=": "<<<"}.get(e.get("opcode"))
+            if not op:
+                raise Unrecognised("T15: compound assignment %s" % e.get("opcode"))
+            env["s"] = "(%s %s %s) %% 256" % (env["s"], op, _bits(e["inner"][1], env))
+        else:
+            raise Unrecognised("T15: unrecognised statement in set_cmd_state")
+    if ld is None or stn is None or ld != stn:
+        raise Unrecognised("T15: set_cmd_state does not load and store the same byte")
+    out.append("/-- `set_cmd_state` of src/cat.c: the byte index … -/\ndef set_cmd_state_index (i : Nat) : Nat := %s" % ld)
+    out.append("/-- … and the byte stored there, from the byte `b` found there and the new state `v` -/\ndef set_cmd_state_bits (b i v : Nat) : Nat := %s" % env["s"])
+    return out
+
+
 def t9(ast):
     defs = []
     for name in STEPS:
@@ -1989,7 +2095,8 @@ def t9(ast):
     defs += t12(ast)
     defs += t13(ast)
     defs += t14(ast)
-    hdr = ("/-\n  GENERATED by tools/translate.py from small step functions of src/cat.c (T9 - T14). Do not edit.\n"
+    defs += t15(ast)
+    hdr = ("/-\n  GENERATED by tools/translate.py from small step functions of src/cat.c (T9 - T15). Do not edit.\n"
            "  `Proofs/Steps.lean` proves the model's functions equal to these.\n-/\n"
            "import CatVerif.Model.Fsm\nnamespace Cat.Gen\nopen Cat St\nset_option linter.unusedVariables false\n\n")
     return hdr + "\n\n".join(defs) + "\n\nend Cat.Gen\n"
